@@ -2,7 +2,7 @@
    configuration to the eight generated files, byte for byte. Transcribed function by function. *)
 From Coq Require Import List NArith ZArith Bool String.
 From Dznpy Require Import Base.PyStr Base.Result Base.Json Model.TextGen Model.Scoping Model.PortSelection Model.CppGen
-  Model.Ast Model.SupportFiles.
+  Model.Ast Model.SupportFiles Sem.ShellSem.
 Import ListNotations.
 
 (* ---------- lookups over the typed FileContents (ast_view.find_fqn) ---------- *)
@@ -272,47 +272,53 @@ Definition encapsulee_block (enc_name : ids) (enc_fqn : ids) : content :=
 Definition events_of (d : edir) (p : cppport) : list event :=
   filter (fun e => match e_dir e, d with EIn, EIn | EOut, EOut => true | _, _ => false end) (it_events (zp_itf (cp_dzn p))).
 
-(* the C++ parameter list of an event: each formal's type is the data value of the unique extern found from the
+(* the C++ parameters of an event: each formal's type is the data value of the unique extern found from the
    interface's scope; `by_ref` adds & to out/inout formals *)
-Definition formal_args (fc : file_contents) (itf : interface_d) (by_ref : bool) (e : event) : result (list str) :=
+Definition formal_params (fc : file_contents) (itf : interface_d) (by_ref : bool) (e : event) : result (list cparam) :=
   mapM (fun f => do ext <- single as_extern (lookup_fqn fc (f_type f) (it_fqn itf));
-                 let r := if by_ref then (match f_dir f with FIn => [] | _ => L "&" end) else [] in
-                 Ok (ex_value ext ++ r ++ L " " ++ f_name f)) (e_formals e).
+                 Ok {| cp_type := ex_value ext;
+                       cp_by_ref := by_ref && (match f_dir f with FIn => false | _ => true end);
+                       cp_pname := f_name f |}) (e_formals e).
+Definition formal_args (fc : file_contents) (itf : interface_d) (by_ref : bool) (e : event) : result (list str) :=
+  do ps <- formal_params fc itf by_ref e; Ok (map cparam_text ps).
 
 Definition paren_args (args : list str) : str := match args with [] => [] | _ => L "(" ++ join (L ", ") args ++ L ")" end.
 Definition call_args (e : event) : str := join (L ", ") (map f_name (e_formals e)).
 Definition in_formals (e : event) : list formal := filter (fun f => match f_dir f with FIn => true | _ => false end) (e_formals e).
-Definition captures (e : event) : str := List.concat (map (fun f => L ", " ++ f_name f) (in_formals e)).
 
 Definition tb_of_strs (l : list str) : option str :=
   match l with [] => None | _ => Some (str_tb (mk1 (strlist l))) end.
 
-(* reroute_in_events *)
+(* ---- the statements of the constructor, per port (Sem/ShellSem.v gives them their meaning) ---- *)
+
+Definition sl (o : obj) (d : evd) (e : event) : slot := {| s_obj := o; s_dir := d; s_ev := e_name e |}.
+Definition boundary (p : cppport) : obj := if cp_is_mc p then Arb (cp_name p) else Bnd (cp_name p).
+Definition sp_of (disp : str) (p : cppport) : spelling := {| sp_dispatcher := disp; sp_member := fun _ => cp_target p |}.
+
+(* reroute_in_events: boundary.in.e = [&](params) { return dzn::shell(dispatcher, [&, ins] { return encapsulee.p.in.e(args); }); } *)
+Definition in_stmts (fc : file_contents) (p : cppport) : result (list stmt) :=
+  mapM (fun e => do ps <- formal_params fc (zp_itf (cp_dzn p)) true e;
+                 Ok (Assign (sl (boundary p) DIn e)
+                            (ShellFwd ps (map f_name (in_formals e)) (sl (Enc (cp_name p)) DIn e) (map f_name (e_formals e)))))
+       (events_of EIn p).
 Definition reroute_in_events (fc : file_contents) (disp : str) (p : cppport) : result (option str) :=
-  do l <- mapM (fun e =>
-            do args <- formal_args fc (zp_itf (cp_dzn p)) true e;
-            let target := cp_target p ++ (if cp_is_mc p then L "()" else []) in
-            Ok (target ++ L ".in." ++ e_name e ++ L " = [&]" ++ paren_args args ++ L " {" ++ [LF] ++
-                L "    return dzn::shell(" ++ disp ++ L ", [&" ++ captures e ++ L "] { return " ++ m_encapsulee ++ L "." ++
-                cp_name p ++ L ".in." ++ e_name e ++ L "(" ++ call_args e ++ L "); });" ++ [LF] ++ L "};"))
-          (events_of EIn p);
-  Ok (tb_of_strs l).
+  do l <- in_stmts fc p; Ok (tb_of_strs (map (render_stmt (sp_of disp p)) l)).
 
-(* reroute_out_events *)
+(* reroute_out_events: boundary.out.e = [&](params) { return dispatcher([&, ins] { return encapsulee.p.out.e(args); }); } *)
+Definition out_stmts (fc : file_contents) (p : cppport) : result (list stmt) :=
+  mapM (fun e => do ps <- formal_params fc (zp_itf (cp_dzn p)) false e;
+                 Ok (Assign (sl (Bnd (cp_name p)) DOut e)
+                            (PostFwd ps (map f_name (in_formals e)) (sl (Enc (cp_name p)) DOut e) (map f_name (e_formals e)))))
+       (events_of EOut p).
 Definition reroute_out_events (fc : file_contents) (disp : str) (p : cppport) : result (option str) :=
-  do l <- mapM (fun e =>
-            do args <- formal_args fc (zp_itf (cp_dzn p)) false e;
-            Ok (cp_target p ++ L ".out." ++ e_name e ++ L " = [&]" ++ paren_args args ++ L " {" ++ [LF] ++
-                L "    return " ++ disp ++ L "([&" ++ captures e ++ L "] { return " ++ m_encapsulee ++ L "." ++
-                cp_name p ++ L ".out." ++ e_name e ++ L "(" ++ call_args e ++ L "); });" ++ [LF] ++ L "};"))
-          (events_of EOut p);
-  Ok (tb_of_strs l).
+  do l <- out_stmts fc p; Ok (tb_of_strs (map (render_stmt (sp_of disp p)) l)).
 
-(* stdref_provides_out_events / stdref_requires_in_events *)
+(* stdref_provides_out_events / stdref_requires_in_events: encapsulee.p.d.e = std::ref(boundary.d.e) *)
+Definition ref_stmts (d : edir) (p : cppport) : list stmt :=
+  let dd := match d with EIn => DIn | EOut => DOut end in
+  map (fun e => Assign (sl (Enc (cp_name p)) dd e) (Ref (sl (boundary p) dd e))) (events_of d p).
 Definition stdref_events (d : edir) (p : cppport) : option str :=
-  let dn := match d with EIn => L ".in." | EOut => L ".out." end in
-  tb_of_strs (map (fun e => m_encapsulee ++ L "." ++ cp_name p ++ dn ++ e_name e ++ L " = std::ref(" ++ cp_target p ++ dn ++ e_name e ++ L ");")
-                  (events_of d p)).
+  tb_of_strs (map (render_stmt (sp_of [] p)) (ref_stmts d p)).
 
 (* reroute_multiclient_out_events *)
 Definition reroute_multiclient_out_events (fc : file_contents) (p : cppport) : result (option str) :=
@@ -354,9 +360,10 @@ Definition release_snippet (fc : file_contents) (p : cppport) (m : mcfix) : resu
         [cp_target p ++ L ".Arbitered().in." ++ e_name e ++ L "(" ++ call_args e ++ L ");";
          cp_target p ++ L ".Deselect(identifier);"]).
 
+Definition client_ref_stmt (p : cppport) (e : event) : stmt :=
+  Assign (sl (Cli (cp_name p) []) DIn e) (Ref (sl (boundary p) DIn e)).
 Definition stdref_in_event (p : cppport) (e : event) : content :=
-  CBlock (mk1 (CList [CStr (L "port.in." ++ e_name e ++ L " = std::ref(" ++ cp_target p ++ (if cp_is_mc p then L "()" else []) ++
-                            L ".in." ++ e_name e ++ L ");")])).
+  CBlock (mk1 (CList [CStr (render_stmt (sp_of [] p) (client_ref_stmt p e))])).
 
 (* initialize_port_impl *)
 Definition initialize_port_impl (fc : file_contents) (sfns : ids) (p : cppport) (m : mcfix) : result tblock :=
@@ -426,8 +433,8 @@ Definition create_constructor (fc : file_contents) (scope : str) (fa : facilitie
              map (fun p => if cp_is_mc p
                            then member_name p ++ L "(multiclientLog, """ ++ cp_name p ++ L """, [this](const auto& identifier) { return InitializePort" ++
                                 cp_cap p ++ L "(identifier); })"
-                           else member_name p ++ L "(" ++ m_encapsulee ++ L "." ++ cp_name p ++ L ")") mts_pp ++
-             map (fun p => member_name p ++ L "(" ++ m_encapsulee ++ L "." ++ cp_name p ++ L ")") mts_rp in
+                           else render_stmt (sp_of [] p) (CopyPort (Bnd (cp_name p)) (Enc (cp_name p)))) mts_pp ++
+             map (fun p => render_stmt (sp_of [] p) (CopyPort (Bnd (cp_name p)) (Enc (cp_name p)))) mts_rp in
   let plain_pp := filter (fun p => negb (cp_is_mc p)) mts_pp in
   let mc_pp := filter cp_is_mc mts_pp in
   do rin <- mapM (reroute_in_events fc disp) plain_pp;
@@ -436,8 +443,7 @@ Definition create_constructor (fc : file_contents) (scope : str) (fa : facilitie
   do mcout <- mapM (reroute_multiclient_out_events fc) mc_pp;
   let stdref_out := map (stdref_events EOut) plain_pp in
   let stdref_in := map (stdref_events EIn) mts_rp in
-  let enc_out := flat_map (fun p => map (fun e => m_encapsulee ++ L "." ++ cp_name p ++ L ".out." ++ e_name e ++ L " = std::ref(" ++
-                                                 cp_target p ++ L "().out." ++ e_name e ++ L ");") (events_of EOut p)) mc_pp in
+  let enc_out := flat_map (fun p => map (render_stmt (sp_of [] p)) (ref_stmts EOut p)) mc_pp in
   let section (title : str) (items : list str) : content :=
       opt_block (cond_chunk (comment_s title) (strlist items) CNone blank_line true) in
   let contents := mk1 (CList [
